@@ -92,7 +92,7 @@ Definition read_from_field (m : mode) (r : rst) (sc : scope) (is_opt : bool) : r
                 Ok (f_err e, r_set_src r (src_adv s (p - s_pos s) (skipn (N.to_nat (p - s_pos s)) (s_rest s))))
             | Ok (n, s) =>
                 let r := r_set_src r s in
-                let! read_n := uadd m n 1 in
+                let read_n := N.min (n + 1) (two64 - 1) in      (* saturating_add(1) *)
                 let start := s_pos (r_src r) in
                 (* saturating_add; the range covers the transmitted presence bits *)
                 let stop := N.min (start + read_n) (two64 - 1) in
